@@ -4,7 +4,7 @@
     A stage is any function from the records it reads to the lines it collects (its standalone
     run); the theorems hold for every such function. *)
 From Coq Require Import ZArith List Bool.
-From V Require Import Csv.CsvModel Mgr.Archive.
+From V Require Import Csv.CsvModel Data.DataModel Mgr.Archive.
 Import ListNotations.
 Open Scope Z_scope.
 
@@ -67,3 +67,18 @@ Section Refs.
   Definition var_ref (g : Z) (v : ustring) (st : store) : option V :=
     match results_of g st with Some ms => get_variable v ms | None => None end.
 End Refs.
+
+
+(** * a results reference used as a file name: the run reads the referenced member's data.csv
+      (ResultsManager.data_file_for_reference); None = that member collected nothing, there is no such file (D14b) *)
+Definition replay_input (referenced : rows) : option rows := option_map (read_file std) (data_csv referenced).
+Definition replay_chain (referenced : rows) (ss : list stage) : outcome :=
+  match replay_input referenced with Some i => chain i ss | None => NoDataFile [] end.
+
+(** * a header reference $name.headers.h (productions/reference.py _get_value_from_results): the referenced member's
+      header index of h, then the stripped cell of every collected line that has one; None = unknown header (the reference raises) *)
+Definition header_ref (hs : list ustring) (h : ustring) (collected : rows) : option (list ustring) :=
+  match header_index h hs with
+  | Some i => Some (flat_map (fun l => match nth_error l i with Some v => [strip v] | None => [] end) collected)
+  | None => None
+  end.
